@@ -3,7 +3,7 @@
    Model: Codec/C25Arith.v (Go's fixed-width operators as Z reduced into the type's range). *)
 From Coq Require Import ZArith Bool List.
 Import ListNotations.
-From GMS Require Import Codec.C25Arith Codec.C25ArithProofs.
+From GMS Require Import Codec.C25Arith Codec.C25ArithProofs Codec.C25Nested Codec.C25NestedProofs.
 Open Scope Z_scope.
 
 (* Target statement "eval (a op b) = RInt t v -> v = a op b" is FALSE of the faithful model: + - * use Go's
@@ -168,6 +168,65 @@ Theorem C25_div_rounding_refuted :
   ~ (2 * Z.abs (17636571428 * (7 * 10 ^ 5) - 12345600 * 10 ^ (0 + 9)) <= Z.abs (7 * 10 ^ 5)).
 Proof. exact divide_truncates_witness. Qed.
 Print Assumptions C25_div_rounding_refuted.
+
+(* ABS / SIGN (function/absval.go, function/math.go) *)
+Theorem C25_abs_exact_unless_minimum :
+  forall t z, in_range t z ->
+    (unsigned t = true -> eval Abs false 0 (OInt t z) ONull = RInt (go_carrier t) z) /\
+    (unsigned t = false -> z <> - carrier_half t -> eval Abs false 0 (OInt t z) ONull = RInt (go_carrier t) (Z.abs z)).
+Proof. exact abs_exact. Qed.
+Print Assumptions C25_abs_exact_unless_minimum.
+
+Theorem C25_abs_minimum_refuted :
+  eval Abs false 0 (OInt I8 (-128)) ONull = RInt I8 (-128) /\ eval Abs false 0 (OInt I64 min_i64) ONull = RInt I64 min_i64.
+Proof. exact abs_minimum_wraps. Qed.
+Print Assumptions C25_abs_minimum_refuted.
+
+Theorem C25_sign_integer_exact : forall t z, eval Sign false 0 (OInt t z) ONull = RInt I8 (Z.sgn z).
+Proof. exact sign_integer_exact. Qed.
+Print Assumptions C25_sign_integer_exact.
+
+(* SIGN(0.4) = 0: the decimal is rounded to an integer before its sign is taken *)
+Theorem C25_sign_decimal_refuted :
+  eval Sign false 0 (ODec 4 1) ONull = RInt I8 0 /\ eval Sign false 0 (ODec (-4) 1) ONull = RInt I8 0 /\
+  eval Sign false 0 (ODec 5 1) ONull = RInt I8 1.
+Proof. exact sign_decimal_rounds. Qed.
+Print Assumptions C25_sign_decimal_refuted.
+
+(* ---- nested arithmetic (model: Codec/C25Nested.v; static types propagate bottom-up and decide the conversions) ---- *)
+(* trees of + - * of any depth over signed integer leaves of any width: if EVERY subexpression's exact value fits
+   BIGINT, the engine returns the exact value *)
+Theorem C25_nested_int_exact_when_every_subexpression_fits :
+  forall e, signed_tree e -> fits e -> min_i64 <= zval e <= max_i64 -> exists t, neval e = RInt t (zval e).
+Proof. exact nested_signed_exact. Qed.
+Print Assumptions C25_nested_int_exact_when_every_subexpression_fits.
+
+(* ... and the guard on the intermediates is needed: ((9223372036854775807 + 1) * 2) - 5 evaluates to -5 *)
+Theorem C25_nested_intermediate_overflow_refuted :
+  let e := EBin Minus (EBin Mult (EBin Plus (ELeaf false 0 (OInt I64 9223372036854775807)) (ELeaf true 0 (OInt I8 1)))
+                                 (ELeaf true 0 (OInt I8 2))) (ELeaf true 0 (OInt I8 5)) in
+  neval e = RInt I64 (-5) /\ zval e = 18446744073709551611.
+Proof. exact nested_intermediate_overflow. Qed.
+Print Assumptions C25_nested_intermediate_overflow_refuted.
+
+Theorem C25_nested_error_and_null_absorbing :
+  forall o l r,
+    (ev l = RErr -> ev (EBin o l r) = RErr) /\
+    (ev l <> RErr -> ev r = RErr -> ev (EBin o l r) = RErr) /\
+    (ev l <> RErr -> ev r <> RErr -> (ev l = RNull \/ ev r = RNull) -> ev (EBin o l r) = RNull).
+Proof. exact nested_error_and_null_absorbing. Qed.
+Print Assumptions C25_nested_error_and_null_absorbing.
+
+Example C25_nested_division_nonvacuous :
+  neval (EBin Div (EBin Div (ELeaf true 0 (OInt I8 10)) (ELeaf true 0 (OInt I8 4))) (ELeaf true 0 (OInt I8 2)))
+    = RDec 125000000 8 /\
+  neval (EBin Plus (EBin Div (ELeaf true 0 (OInt I8 1)) (ELeaf true 0 (OInt I8 3)))
+                   (EBin Div (EBin Div (ELeaf true 0 (OInt I8 7)) (ELeaf true 0 (OInt I8 2))) (ELeaf true 0 (OInt I8 3))))
+    = RDec 150000000 8 /\
+  neval (EBin Div (ELeaf true 0 (OInt I8 1)) (EBin IntDiv (ELeaf true 0 (OInt I8 7)) (ELeaf true 0 (OInt I8 0)))) = RNull /\
+  neval (ENeg (EBin Div (ELeaf true 0 (OInt I8 2)) (ELeaf true 0 (OInt I8 3)))) = RDec (-6667) 4.
+Proof. exact nested_division_examples. Qed.
+Print Assumptions C25_nested_division_nonvacuous.
 
 (* non-vacuity: concrete evaluations that meet the hypotheses of the guarded theorems *)
 Example C25_nonvacuous :
